@@ -695,6 +695,19 @@ def line_up(h: Hist, out: typing.List[dict]) -> typing.Tuple[typing.List[dict], 
     return entries, ops, errs
 
 
+def failed_lemma(res) -> str:
+    """name of the lemma at the error position when the failing file is not Properties/C10.v"""
+    try:
+        m = re.search(r'File "\./?([^"]+)", line (\d+)', res.error_text or res.make_log)
+        if not m:
+            return ''
+        lines = open(os.path.join(core.COQ, m.group(1)), encoding='utf-8').read().splitlines()[:int(m.group(2))]
+        names = [x for l in lines for x in re.findall(r'^\s*(?:Theorem|Lemma|Example)\s+(\w+)', l)]
+        return names[-1] if names else ''
+    except Exception:  # noqa
+        return ''
+
+
 def main(chk: core.Check, replay: typing.Optional[str] = None) -> int:
     quick = chk.tier == 'quick'
     rng = chk.rng
@@ -724,7 +737,7 @@ def main(chk: core.Check, replay: typing.Optional[str] = None) -> int:
     if err:
         broken.append(err)
     if not res.ok:
-        broken.append('proof obligation: %s %s' % (res.failed_file or 'translator', res.failed_theorem or ''))
+        broken.append('proof obligation: %s %s' % (res.failed_file or 'translator', res.failed_theorem or failed_lemma(res)))
     resets_fact = True
     for m in res.translator_msgs:
         if m.startswith('uniq:') and 'generate_code_resets_uniq=False' in m:
